@@ -163,7 +163,7 @@ func specTrigger(cb *c18Cb, re *regexp.Regexp, b []byte) bool {
 }
 
 func runC18Case(id string, c *c18Case) {
-	defer recoverCase(id, c)
+	defer watchCase(id, c)()
 	if c18rx == nil {
 		c18rx = map[string]string{}
 		for _, e := range loadRegexes() {
@@ -392,7 +392,7 @@ func genC18TO(r *sim.Rng) *c18TO {
 }
 
 func runC18TO(id string, c *c18TO) {
-	defer recoverCase(id, c)
+	defer watchCase(id, c)()
 	cs := &Case{ID: id, Kind: "timeouts-" + c.Variant, HypOK: true, Replay: map[string]interface{}{"timeouts": c}, Nontrivial: true}
 	steps := func() [][]byte {
 		return [][]byte{[]byte("Proceed with reload? [confirm]"), []byte("Destination filename [startup-config]? "), []byte("Copy complete\nrouter#")}
